@@ -167,6 +167,41 @@ def assign_def(rng, is_async, payload, concrete, dynamic=True):
     d.append(('events', [('go', ev)], True))
     return d
 
+def full_def(is_async, payload, concrete, dynamic=True, ptype='Pay'):
+    """deterministic: every hook kind at event and at transition level, with and without an around callback,
+    an unless-only edge, a multi-source and a superstate-source transition, a superstate target, data on leaves at
+    two depths and on a superstate, a self-transition of a data state — in one of the four generated shapes"""
+    P = [('payload', [ptype])] if payload else []
+    h = lambda k: hook_names(k, payload)
+    d = [('name', 'Machine')]
+    if concrete:
+        d.append(('context', ['Ctx']))
+    if is_async:
+        d.append(('async', True))
+    if dynamic:
+        d.append(('dynamic', True))
+    d.append(('initial', 'Idle'))
+    d.append(('states', [('leaf', 'Idle', ['D']),
+                         ('sup', 'Flight', ['D'], [('state', 'Launch', None),
+                                                   ('sup', 'Outer', None, [('state', 'HalfOpen', ['D']), ('state', 'Busy', None),
+                                                                           ('initial', 'Busy')]),
+                                                   ('initial', 'Launch')]),
+                         ('leaf', 'Done', None)]))
+    d.append(('events', [
+        ('go', P + [('guards', [h('guards')[0], h('guards')[1]], True), ('unless', [h('unless')[2]], True),
+                    ('before', [h('before')[0]], True), ('after', [h('after')[0]], True), ('around', [h('around')[0]], True),
+                    ('transition', [('from', ['Idle', 'Done'], True), ('to', 'Flight'), ('guards', [h('guards')[2]], True),
+                                    ('unless', [h('unless')[0]], True), ('before', [h('before')[1]], True),
+                                    ('after', [h('after')[1]], True), ('around', [h('around')[1]], True)])]),
+        ('next', P + [('transition', [('from', ['Flight'], False), ('to', 'Outer'), ('unless', [h('unless')[1]], True)])]),
+        ('tick', P + [('transition', [('from', ['HalfOpen'], False), ('to', 'HalfOpen'), ('before', [h('before')[2]], True),
+                                      ('after', [h('after')[2]], True)]),
+                      ('transition', [('from', ['Busy'], False), ('to', 'HalfOpen'), ('guards', [h('guards')[0]], True)])]),
+        ('stop', [('transition', [('from', ['Outer', 'Launch'], True), ('to', 'Done'), ('around', [h('around')[2]], True)])]),
+        ('reset', [('transition', [('from', ['Done'], False), ('to', 'Idle')])]),
+    ], True))
+    return d
+
 def hier_def(rng, is_async=False, concrete=False, dynamic=True):
     """nested superstates (depth 2-3) with leaves before and after the nested blocks; every event
     has one transition whose source is a (preferably nested) superstate or a single leaf"""
